@@ -237,6 +237,13 @@ pub axiom fn ax_ref_eq<A: PartialEq>()
 pub open spec fn a_eq<A: PartialEq>(x: A, y: &A) -> bool { <A as PartialEqSpec<A>>::eq_spec(&x, y) }
 // user key types: a clone is the same abstract key (Clone/Eq/Hash coherence, assumed)
 pub axiom fn ax_clone_is_equal<A: Clone>() ensures forall|a: &A, b: A| #[trigger] call_ensures(A::clone, (a,), b) ==> *a == b;
+// scanning path: the infoset's action list and the position of an action in it (the
+// `iter().enumerate().find(|(_, act)| act == &action)` chain: first position holding an equal action)
+pub struct InfoActions<A> { pub actions: Box<[A]> }
+#[verifier::external_body]
+pub fn __abs_position<A>(actions: &Box<[A]>, action: &A) -> (r: Option<usize>)
+    ensures match r { Some(i) => i < actions@.len() && actions@[i as int] == *action, None => !actions@.contains(*action) },
+{ unimplemented!() }
 // a weight the import accepts: >= 0 (so not NaN) and finite
 pub open spec fn legal(p: f64) -> bool { fge(p, 0.0f64) && fisfinite(p) }
 
@@ -288,6 +295,35 @@ proof { ax_obeys(); ax_ieee_class(); ax_ref_eq::<A>(); }
                         return Err(StratError::InvalidAction);
                     } else if prob >= &0.0 && prob.is_finite() {
                         *seen = true;
+                    } else {
+                        return Err(StratError::InvalidProbability);
+                    }
+                
+Ok(())
+}
+
+// ---- extracted from src/lib.rs: impl Game / fn strat_into_box_slow ----
+pub fn strat_into_box_slow__multi_entry<A, BA: Borrow<A>, BP: Borrow<f64>>(baction: BA, bprob: BP, info: &InfoActions<A>, info_ind: usize, dense: &mut Box<[f64]>) -> (out: Result<(), StratError>)
+    requires
+        info_ind + info.actions@.len() <= old(dense)@.len(),
+    ensures
+        final(dense)@.len() == old(dense)@.len(),
+        // the scanning importer applies the same rules to an (action, weight) entry as the hashing one
+        !legal(bprob.bview()) ==> out == Err::<(), StratError>(StratError::InvalidProbability) && final(dense)@ == old(dense)@, // @ob C14.V.scan_import.rejects_bad_weight
+        legal(bprob.bview()) && !info.actions@.contains(baction.bview()) ==> out == Err::<(), StratError>(StratError::InvalidAction) && final(dense)@ == old(dense)@, // @ob C14.V.scan_import.rejects_unknown_action
+        legal(bprob.bview()) && info.actions@.contains(baction.bview()) ==> out is Ok
+            && exists|i: int| 0 <= i < info.actions@.len() && info.actions@[i] == baction.bview()
+                && final(dense)@ == old(dense)@.update(info_ind + i, bprob.bview()), // @ob C14.V.scan_import.stores_weight
+{
+broadcast use fl;
+proof { ax_obeys(); ax_ieee_class(); }
+let ghost __l = dense.len(); // brings `len() <= usize::MAX` into scope
+
+                    let action = baction.borrow();
+                    let prob = bprob.borrow();
+                    if prob >= &0.0 && prob.is_finite() {
+                        let act_ind = __abs_position(&info.actions, action).ok_or(StratError::InvalidAction)?;
+                        dense[info_ind + act_ind] = *prob;
                     } else {
                         return Err(StratError::InvalidProbability);
                     }
